@@ -68,6 +68,23 @@ Definition s_of_string (nb : nat) (str : list N) (pos : nat) (n : N) (zero one :
       SOk (rev (map (fun c => negb (N.eqb c zero)) (firstn m sub)) ++ repeat false (nb - m))
     else SInvalid.
 
+(* [bitset.cons] bitset(const charT* str, n, zero, one): "Effects: As if by
+     bitset(n == basic_string_view<charT>::npos ? basic_string_view<charT>(str)
+                                                : basic_string_view<charT>(str, n), 0, n, zero, one)".
+   The array is arr ++ [0]; basic_string_view(str) ends in front of the first NUL (traits::length). *)
+Definition s_npos : N := (2 ^ 64 - 1)%N.
+
+Fixpoint s_until_nul (arr : list N) : list N :=
+  match arr with
+  | [] => []
+  | c :: r => if N.eqb c 0 then [] else c :: s_until_nul r
+  end.
+
+Definition s_of_cstring (nb : nat) (arr : list N) (counted : bool) (zero one : N) : sres :=
+  let n := if counted then N.of_nat (length arr) else s_npos in
+  if N.eqb n s_npos then s_of_string nb (s_until_nul arr) 0 n zero one
+  else s_of_string nb (firstn (N.to_nat n) arr) 0 n zero one.
+
 (** * Histories on the spec side: the same two-register machine over std::bitset values.
     None = std::bitset throws out_of_range (set/reset/flip/test, string constructor) or
     invalid_argument (string constructor) or has undefined behaviour (operator[] with pos >= N):
@@ -99,6 +116,13 @@ Definition s_step (nb : nat) (st : sstate) (o : op) : option (sstate * list bool
   | OSwap => Some ((oth, cur), [])
   | OTest pos =>
       match s_test cur pos with Some b => Some ((cur, oth), [b; b; b; negb b]) | None => None end
+  | ORefCopySelf pos src =>
+      match s_test cur src with Some b => upd_cur (s_put cur pos b) | None => None end
+  | OAndSelf => Some ((s_and cur cur, oth), [])
+  | OOrSelf => Some ((s_or cur cur, oth), [])
+  | OXorSelf => Some ((s_xor cur cur, oth), [])
+  | OCStr arr counted zero one =>
+      match s_of_cstring nb arr counted zero one with SOk c => Some ((c, oth), []) | _ => None end
   end.
 
 Definition s_observe (nb : nat) (st : sstate) : obs :=
